@@ -11,6 +11,7 @@ from ..cfg import CFG
 from ..dataflow import reaching_defs
 from ..guards import conditions_at
 from ..loader import AnchorError, Undecided
+from ..symres import Resolver
 
 EXPLANATION = (
     "Producer/consumer agreement between the interactive setup, the profile "
@@ -84,10 +85,11 @@ def r1_vocabularies(ctx):
         ".fit_model")]
     ctx.floor("fit_model call in fit_data", len(fm), 1)
     profile_defaults = literal(pm.assign("DEFAULTS"))
+    Rfd = Resolver(fd, keep={"params", "pf"})
     for kw in fm[0].keywords:
         ctx.check(kw.arg in dflt, kw.value, f"fit_model({kw.arg}=...)",
                   f"fit_data passes '{kw.arg}' which is not a fit setting")
-        v = norm(kw.value)
+        v = Rfd.text(kw.value)
         if kw.arg == "params_initial":
             ctx.check(v == "params", kw.value, "params_initial <- "
                       "pf.get_fit_params()", "initial parameters are not "
@@ -105,7 +107,8 @@ def r1_vocabularies(ctx):
                       "fit_model: the stored value has no effect")
     ap = [c for c in calls_in(fd) if (call_name(c) or "").endswith(
         ".apply_preprocessing")]
-    ok = bool(ap) and {kw.arg: norm(kw.value) for kw in ap[0].keywords} == {
+    ok = bool(ap) and {kw.arg: Rfd.text(kw.value)
+                       for kw in ap[0].keywords} == {
         "preprocessing": "pf['preprocessing']",
         "options": "pf['preprocessing_options']"}
     ctx.check(ok, fd, "preprocessing and options from the profile",
@@ -461,8 +464,21 @@ def r5_statistics(ctx):
         for s in lp.body:
             if isinstance(s, ast.Assign) and norm(s.targets[0]) == "stats":
                 row = s.value
-        ok = row is not None and norm(row) == \
-            "[str(dd[1](idnt)) for dd in dlist]"
+        ok = False
+        if isinstance(row, ast.ListComp) and len(row.generators) == 1 and \
+                norm(row.generators[0].iter) == "dlist" and \
+                not row.generators[0].ifs and isinstance(row.elt, ast.Call) \
+                and call_name(row.elt) == "str" and isinstance(
+                    row.elt.args[0], ast.Call):
+            g = row.generators[0]
+            inner = row.elt.args[0]
+            fexpr = norm(inner.func)
+            cur = norm(lp.target)
+            if isinstance(g.target, ast.Name):
+                ok = fexpr == f"{g.target.id}[1]"
+            elif isinstance(g.target, ast.Tuple) and len(g.target.elts) == 2:
+                ok = fexpr == norm(g.target.elts[1])
+            ok = ok and [norm(a) for a in inner.args] == [cur]
         ctx.check(ok, lp, "row = every column function applied to the curve",
                   "the statistics row is not built from all columns of the "
                   "current curve")
